@@ -96,7 +96,7 @@ func (t *Table) ToMarkdown() string {
 	// Header row
 	for j, cell := range t.Rows[0] {
 		sb.WriteString("| ")
-		sb.WriteString(strings.ReplaceAll(cell.Text, "\n", " "))
+		sb.WriteString(markdownCellText(cell.Text))
 		sb.WriteString(" ")
 		if j == len(t.Rows[0])-1 {
 			sb.WriteString("|")
@@ -117,7 +117,7 @@ func (t *Table) ToMarkdown() string {
 	for i := 1; i < len(t.Rows); i++ {
 		for j, cell := range t.Rows[i] {
 			sb.WriteString("| ")
-			sb.WriteString(strings.ReplaceAll(cell.Text, "\n", " "))
+			sb.WriteString(markdownCellText(cell.Text))
 			sb.WriteString(" ")
 			if j == len(t.Rows[i])-1 {
 				sb.WriteString("|")
@@ -127,6 +127,15 @@ func (t *Table) ToMarkdown() string {
 	}
 
 	return sb.String()
+}
+
+// markdownCellText makes a cell's text safe inside a pipe table: a cell is one
+// line, and a literal '|' would otherwise end the cell (GFM: "\|").
+func markdownCellText(text string) string {
+	text = strings.ReplaceAll(text, "\r\n", " ")
+	text = strings.ReplaceAll(text, "\n", " ")
+	text = strings.ReplaceAll(text, "\r", " ")
+	return strings.ReplaceAll(text, "|", "\\|")
 }
 
 // ToCSV converts the table to CSV format
